@@ -91,7 +91,7 @@ inductive Op where
   -- extension round 4: the same object twice, other container kinds, swap, record::set
   | treeSwap | treeSortPred | joinSelf | arrJoinSelf | tupConcatSelf | optCombineSelf
   | algMapList | algMapArr | algMapTup | algLoopBreakTuple | recSet
-  | algRemoveIf | algRemove | algUnique | algUniqueIf
+  | algRemoveIf | algRemove | algUnique | algUniqueIf | algSeqIterationVec
   deriving DecidableEq, Repr, Inhabited
 
 /-- Arguments (value category, element identities in container order) and the operation's
@@ -143,6 +143,12 @@ def sinkAt (rv : Bool) (a i : Nat) : Instr := if rv then .xfer a i .move .drop e
 /-- `map_iteration` / `sequence_iteration` (node containers): the user's action reads every element; answer 0 = remove: `erase(it)` -/
 def iterErase (a : Nat) (mask : List Nat) : List Instr :=
   (List.range mask.length).flatMap fun i => .read a i :: (if mask[i]? = some 0 then [.pop a i .drop] else [])
+
+/-- `sequence_iteration` on a `std::vector`: `erase(it)` move-assigns every later element one place down -/
+def iterEraseVec (a : Nat) (mask : List Nat) : List Instr :=
+  (List.range mask.length).flatMap fun i =>
+    .read a i :: (if mask[i]? = some 0 then
+      .pop a i .drop :: ((List.range (mask.length - (i + 1))).map fun j => .shift a (i + 1 + j)) else [])
 
 /-- `erase(first, last)` / `clear()` of a node container: the elements `lo .. hi-1` are destroyed in place -/
 def eraseRange (a lo hi : Nat) : List Instr := (List.range (hi - lo)).map fun j => .pop a (lo + j) .drop
@@ -394,6 +400,7 @@ def prog (o : Op) (inp : Input) : List Instr :=
   | .algRemove => .xfer 1 0 .copy .drop :: readAll 0 (n 0)
   -- unique with operator==: pairwise different tokens, nothing is removed
   | .algUnique => readAll 0 (n 0)
+  | .algSeqIterationVec => iterEraseVec 0 inp.par
   | .optsSum => if par0 = 0 then [.fresh 1000 .res, .fresh 1001 .res] else [.fresh 1000 .drop, .fresh 1000 .res]
 
 def jn (b : Bool) : String := if b then "J" else "N"
@@ -628,7 +635,7 @@ def shapeOk (o : Op) (inp : Input) : Bool :=
   | .parseOpt | .parseConvert | .optsArgument | .optsOptional | .optsSum => inp.args.length == 0 && inp.par.length == 1 && inp.par.headD 0 ≤ 1
   | .parseAlt | .parseAsStruct | .optsProduct => inp.args.length == 0 && inp.par.length == 1 && inp.par.headD 0 ≤ 2
   | .parseSeparator | .parseList | .parseRepPlus | .optsMany => inp.args.length == 0 && inp.par.length == 1
-  | .algRemoveIf => inp.args.length == 1 && catIn inp 0 [.io] && inp.par.length == n 0 && inp.par.all (· ≤ 1)
+  | .algRemoveIf | .algSeqIterationVec => inp.args.length == 1 && catIn inp 0 [.io] && inp.par.length == n 0 && inp.par.all (· ≤ 1)
   | .algUniqueIf =>
     inp.args.length == 1 && catIn inp 0 [.io] && inp.par.length == n 0 && inp.par.all (· ≤ 1) && inp.par.headD 1 == 1
   | .algUnique => inp.args.length == 1 && catIn inp 0 [.io] && inp.par.isEmpty
@@ -674,7 +681,7 @@ first success in `first_success`, a half-parsed sequence, the emptied `move_rang
 def drops : Op → Bool
   | .eithApply2 | .eithFirstSuccess | .parseSequence | .moveRangeMap | .optCombine | .optAssign
   | .algMapIteration | .algMapIterationSecond | .algSeqIteration | .treeAssign | .treeSetValue | .treeErase | .treeEraseRange | .treeClear
-  | .gridAssign | .gridFill | .parseAsStruct | .optsProduct | .optsSum | .recSet | .algRemoveIf | .algUniqueIf | .algRemove => true
+  | .gridAssign | .gridFill | .parseAsStruct | .optsProduct | .optsSum | .recSet | .algRemoveIf | .algUniqueIf | .algRemove | .algSeqIterationVec => true
   | _ => false
 
 /-! ## the programs of three repaired defects, kept for the refuted examples in Props/C05.lean -/
@@ -718,7 +725,8 @@ def Op.all : List Op :=
    .parseAlt, .parseOpt, .parseConvert, .parseAsStruct, .parseSeparator, .parseList, .parseRepPlus,
    .optsArgument, .optsOptional, .optsProduct, .optsMany, .optsSum,
    .treeSwap, .treeSortPred, .joinSelf, .arrJoinSelf, .tupConcatSelf, .optCombineSelf, .algMapList, .algMapArr, .algMapTup,
-   .algLoopBreakTuple, .recSet, .algRemoveIf, .algRemove, .algUnique, .algUniqueIf]
+   .algLoopBreakTuple, .recSet, .algRemoveIf, .algRemove, .algUnique, .algUniqueIf,
+   .algSeqIterationVec]
 
 def Op.name : Op → String
   | .algMap => "algmap" | .fold => "fold" | .foldBreak => "foldbrk" | .mapConcat => "mapcat" | .mapOptional => "mapopt"
@@ -769,5 +777,6 @@ def Op.name : Op → String
   | .tupConcatSelf => "tupconcatself" | .optCombineSelf => "optcombineself" | .algMapList => "algmaplist" | .algMapArr => "algmaparr"
   | .algMapTup => "algmaptup" | .algLoopBreakTuple => "algloopbrktup" | .recSet => "recset"
   | .algRemoveIf => "algremoveif" | .algRemove => "algremove" | .algUnique => "algunique" | .algUniqueIf => "alguniqueif"
+  | .algSeqIterationVec => "algseqitervec"
 
 end Fcppt.C05
